@@ -28,16 +28,18 @@ def _run_type(job):
     fn = P.fn("%s::<ROUNDS>::process_mut" % T)
     adt = P.adts.get(T)
     if adt is None:
-        return T, "lost", "cipher type %s is gone" % T, 0, fn.where()
+        return T, "lost", "cipher type %s is gone" % T, 0, fn.where(), []
     fields = [f["name"] for f in adt["variants"][0]["fields"]]
     fi = {n: i for i, n in enumerate(fields)}
     if any(n not in fi for n in ("state", "output", "offset")) or len(fields) != 3:
-        return T, "lost", "fields of %s changed: %s" % (T, fields), 0, fn.where()
+        return T, "lost", "fields of %s changed: %s" % (T, fields), 0, fn.where(), []
     bad = []
     n = 0
     want_n = 0
+    from .. import shapeconst
+    extra, big = shapeconst.around(shapeconst.usize_consts(P, fn), hi=600)
     for off in range(65):
-        lens = lengths_for(off, thorough, maxlen)
+        lens = sorted(set(lengths_for(off, thorough, maxlen)) | extra | {(64 - off) + x for x in extra if (64 - off) + x <= 600})
         want_n += len(lens)
         for ln in lens:
             B = simd.TermBank()
@@ -85,7 +87,7 @@ def _run_type(job):
                     break
         if len(bad) > 3:
             break
-    return T, ("ok" if not bad and n == want_n else "bad"), bad[:3], n, fn.where()
+    return T, ("ok" if not bad and n == want_n else "bad"), bad[:3], n, fn.where(), big
 
 
 def check_process_mut(ctx, P, types, rule="shape-eval", maxlen=131, thorough=False, cfg="K0"):
@@ -95,7 +97,7 @@ def check_process_mut(ctx, P, types, rule="shape-eval", maxlen=131, thorough=Fal
     with concurrent.futures.ProcessPoolExecutor(max_workers=min(len(jobs), int(os.environ.get("CX_JOBS", "6")))) as ex:
         results = list(ex.map(_run_type, jobs))
     done = 0
-    for T, status, x, n, where in results:
+    for T, status, x, n, where, big in results:
         if status == "lost":
             ctx.lost(rule, T + "::process_mut", x)
             continue
@@ -104,6 +106,7 @@ def check_process_mut(ctx, P, types, rule="shape-eval", maxlen=131, thorough=Fal
                   "%s::process_mut does not XOR the consecutive keystream bytes into the data and stay positioned: (offset, length, what) %s" % (T, x), where=where, key="%s:%s::process_mut" % (rule, T))
         if okall:
             done += 1
+        if okall and not big:
             for pre in ("lockstep:%s" % T, "refill-pred:%s" % T, "sibling:%s::process_mut" % T):
                 ctx.subsume(pre, "%s::process_mut is decided for every offset and the lengths around zero, one and two refills by bounded shape evaluation (shape-eval)" % T)
     return done
